@@ -30,3 +30,55 @@ Proof. exact construction_any_length. Qed.
 Example C16_universe_inhabited :
   of_bits [true; true; false; true; false; false; true; true] = [(0, 2, tt); (3, 4, tt); (6, 8, tt)].
 Proof. reflexivity. Qed.
+
+(* ---- appended: unbounded statements (proofs in Ids/RangesProofs.v) and the delete set computed from a document ---- *)
+From Coq Require Import ZArith Lia Permutation.
+From YV Require Import Lib.Bytes Codec.UpdateV1 Ids.RangesProofs Crdt.Doc Crdt.Blocks Crdt.Merge Crdt.Diff Crdt.ApplyDelete Crdt.WriteBlocks Crdt.MergeProofs Crdt.DiffProofs Crdt.WriteBlocksProofs.
+(* UNBOUNDED (any canonical range list, any clock): contains = membership in the denoted set   [Ids/RangesProofs.v: contains_clock_spec] *)
+Theorem C16_UNBOUNDED_contains : forall l k, canon l -> contains_clock l k = Some (den l k).
+Proof. exact YV.Ids.RangesProofs.contains_clock_spec. Qed.
+
+(* insert: canonical result denoting the union with [s, e)   [Ids/RangesProofs.v: insert_with_spec] *)
+Theorem C16_UNBOUNDED_insert : forall l s e, canon l -> s < e ->
+  exists l', insert_with ueq umerge l s e tt = Some l' /\ canon l' /\
+  forall k, den l' k = den l k || ((s <=? k) && (k <? e)).
+Proof. exact YV.Ids.RangesProofs.insert_with_spec. Qed.
+
+(* remove_range: canonical result denoting the difference   [Ids/RangesProofs.v: remove_spec] *)
+Theorem C16_UNBOUNDED_remove : forall l s e, canon l ->
+  exists l', remove l s e = Some l' /\ canon l' /\ forall k, den l' k = den l k && negb ((s <=? k) && (k <? e)).
+Proof. exact YV.Ids.RangesProofs.remove_spec. Qed.
+
+(* merge: canonical result denoting the union   [Ids/RangesProofs.v: merge_spec] *)
+Theorem C16_UNBOUNDED_merge : forall a b, canon a -> canon b ->
+  canon (merge ueq umerge a b) /\
+  forall k, den (merge ueq umerge a b) k = den a k || den b k.
+Proof. exact YV.Ids.RangesProofs.merge_spec. Qed.
+
+(* diff: canonical result denoting the difference   [Ids/RangesProofs.v: exclude_spec] *)
+Theorem C16_UNBOUNDED_exclude : forall a b, canon a -> canon b ->
+  canon (exclude a b) /\ forall k, den (exclude a b) k = den a k && negb (den b k).
+Proof. exact YV.Ids.RangesProofs.exclude_spec. Qed.
+
+(* intersect: canonical result denoting the intersection   [Ids/RangesProofs.v: intersect_spec] *)
+Theorem C16_UNBOUNDED_intersect : forall a b, canon a -> canon b ->
+  canon (intersect ueq umerge a b) /\
+  forall k, den (intersect ueq umerge a b) k = den a k && den b k.
+Proof. exact YV.Ids.RangesProofs.intersect_spec. Qed.
+
+(* subset test = inclusion of the denoted sets   [Ids/RangesProofs.v: subset_of_spec] *)
+Theorem C16_UNBOUNDED_subset : forall a b, canon a -> canon b ->
+  (subset_of a b = true <-> forall k, den a k = true -> den b k = true).
+Proof. exact YV.Ids.RangesProofs.subset_of_spec. Qed.
+
+(* equal sets have equal canonical forms, so they compare and encode equal   [Ids/RangesProofs.v: canon_den_unique] *)
+Theorem C16_UNBOUNDED_canonical_forms_are_unique : forall a b, canon a -> canon b ->
+  (forall k, den a k = den b k) -> a = b.
+Proof. exact YV.Ids.RangesProofs.canon_den_unique. Qed.
+
+(* transcription of DeleteSet::from_store over block lists: canonical, no empty client entry, contains exactly the ids of deleted items and collected ranges   [Crdt/WriteBlocksProofs.v: wbf_delete_set_exact] *)
+Theorem C16_delete_set_of_a_document_is_exact : forall st, wbf_wf st = true ->
+  mrg_ds_ok (wbf_delete_set st) /\ wbf_ds_nonempty (wbf_delete_set st) /\
+  (forall c k, mrg_ds_mem (wbf_delete_set st) c k = true <-> In (mkid c k) (wbf_deleted_ids st)) /\
+  (forall c k, im_contains (wbf_delete_set st) c k = Some (mrg_ds_mem (wbf_delete_set st) c k)).
+Proof. exact YV.Crdt.WriteBlocksProofs.wbf_delete_set_exact. Qed.
